@@ -534,6 +534,26 @@ func init() {
 	externals["strconv.FormatUint"] = func(fr *frame, a []value) value {
 		return strconv.FormatUint(uint64(fr.i.concreteInt(a[0], "strconv.FormatUint argument")), int(fr.i.concreteInt(a[1], "base")))
 	}
+	// crypto/subtle.XORBytes (assembly kernel): dst[i] = x[i] ^ y[i] for i < min(len(x), len(y))
+	externals["crypto/subtle.XORBytes"] = func(fr *frame, a []value) value {
+		i := fr.i
+		dst, x, y := a[0].([]value), a[1].([]value), a[2].([]value)
+		n := min(len(x), len(y))
+		if n == 0 {
+			return 0
+		}
+		if n > len(dst) {
+			panic(targetPanic{iface{i.runtimeErrorString, "subtle.XORBytes: dst too short"}})
+		}
+		for k := 0; k < n; k++ {
+			if isSym(x[k]) || isSym(y[k]) {
+				dst[k] = i.mkVal(i.ts.Bin(OpBXor, i.term(x[k], types.Uint8), i.term(y[k], types.Uint8)), types.Uint8)
+			} else {
+				dst[k] = x[k].(uint8) ^ y[k].(uint8)
+			}
+		}
+		return n
+	}
 	externals["(*time.Timer).Stop"] = func(fr *frame, a []value) value { return true }
 	externals["(*time.Timer).Reset"] = func(fr *frame, a []value) value { return true }
 	// the mask key source: unconstrained
